@@ -14,6 +14,8 @@ A spec (dict) describes ONE component by what its own `construct` declares:
                                         {'t':'kid', slot, spec}        slot = 'c0' or list element 'd0[1]'
   conns, consts                [[ref, ref]], [[ref, int]] in connect order
   uu, rdu, wru, mcs            explicit constraints on own blocks
+  uux                          [[ref, ref]] U(x) < U(y) between blocks of children: U( s.c0.get_update_block("b0") ) < ...
+  (a 'structural' component has no update block of its own: children, connections, constants and uux only)
 ref = [[relhost...], name]: [[], 'w0'] = s.w0, [['c0'], 'out0'] = s.c0.out0.
 Items are in dataflow order (a block / child only consumes what earlier items or the own input ports
 produce), which keeps every generated design free of combinational loops and makes every explicit
@@ -57,6 +59,8 @@ class Gen:
     avail = [[[], f'in{i}'] for i in range(nin)]
     nblk = rng.randint(0, 3)
     nkid = 0 if depth <= 0 else rng.choice([0, 1, 1, 2, 2, 3])
+    structural = depth > 0 and rng.random() < feat.get('structural', 0.2)
+    if structural: nblk, nkid = 0, rng.choice([2, 2, 3])
     plan = ['blk'] * nblk + ['kid'] * nkid
     rng.shuffle(plan)
     nb = [0]; nk = [0]; nl = [0]
@@ -93,13 +97,16 @@ class Gen:
       for i in range(cin):
         port = [[slot], f'in{i}']
         r = rng.random()
-        if rng.random() < feat.get('ffkid', 0.0): new_blk('ff', [port])
+        if structural:
+          if r < 0.75 and avail: connect(port, rng.choice(avail))
+          else: s['consts'].append([port, rng.randint(0, 255)])
+        elif rng.random() < feat.get('ffkid', 0.0): new_blk('ff', [port])
         elif r < 0.5 and avail: connect(port, rng.choice(avail))
         elif r < 0.65: s['consts'].append([port, rng.randint(0, 255)])
         else: new_blk('comb', [port])
       s['items'].append({'t': 'kid', 'slot': slot, 'spec': sub})
       for i in range(cout): avail.append([[slot], f'out{i}'])
-      if sub['mport']:
+      if sub['mport'] and not structural:
         r = rng.random()
         if r < feat.get('mcall', 0.45):
           # the parent calls the child's method port directly
@@ -139,11 +146,22 @@ class Gen:
     for o in range(nout):
       port = [[], f'out{o}']
       r = rng.random()
+      if structural: r = r * 0.6 if avail else 0.55
       if r < 0.5 and avail: connect(port, rng.choice(avail))
       elif r < 0.6: s['consts'].append([port, rng.randint(0, 255)])
       elif r < 0.85: new_blk('comb', [port])
       elif r < 0.97: new_blk('ff', [port])
       else: new_blk('once', [port])
+    # U(x) < U(y) between blocks of two children, forward in item order (consistent with the dataflow order)
+    ks = [(it['slot'], [b['name'] for b in it['spec']['items'] if b['t'] == 'blk' and b['kind'] != 'ff'
+                        and not b.get('mcalls') and not b.get('calls_cp')]) for it in s['items'] if it['t'] == 'kid']
+    ks = [(slot, bs) for slot, bs in ks if bs]
+    s['uux'] = []
+    if len(ks) >= 2 and rng.random() < (0.9 if structural else feat.get('uux', 0.25)):
+      for _ in range(rng.randint(1, 2)):
+        i, j = sorted(rng.sample(range(len(ks)), 2))
+        c = [[[ks[i][0]], rng.choice(ks[i][1])], [[ks[j][0]], rng.choice(ks[j][1])]]
+        if c not in s['uux']: s['uux'].append(c)
     if s['rin']:
       bl = [it for it in s['items'] if it['t'] == 'blk' and it['writes']]
       ffs = [it for it in bl if it['kind'] == 'ff']
@@ -277,6 +295,8 @@ def class_source(spec, sfx, out):
     L += ['      ' + x for x in body]
   cons = []
   for a, b in spec['uu']: cons.append(f'U({a}) < U({b})')
+  def ublk(r): return 's.' + '.'.join(r[0]) + f'.get_update_block("{r[1]}")'
+  for a, b in spec.get('uux', []): cons.append(f'U( {ublk(a)} ) < U( {ublk(b)} )')
   for tag, lst in (('RD', spec['rdu']), ('WR', spec['wru'])):
     for r, lt, b in lst: cons.append(f'{tag}({pyref(r)}) {"<" if lt else ">"} U({b})')
   def mref(x): return f'U({x[1]})' if x[0] == 'u' else f'M({pyref(x[1])})'
@@ -342,7 +362,8 @@ def hier(spec, pre=(), params=(), base=()):
     conns.append([[[slot], 'clk'], [[], 'clk']])
     conns.append([[[slot], 'reset'], [[], 'reset']])
   if spec.get('caller'): conns.append([[[], 'cp'], [[spec['caller'][0]], 'ping']])
-  comp = [bool(spec.get('ph')), sigs, mports, blks, spec['uu'], spec['rdu'], spec['wru'], spec['mcs'], conns,
+  uu = [[[[], a], [[], b]] for a, b in spec['uu']] + spec.get('uux', [])
+  comp = [bool(spec.get('ph')), sigs, mports, blks, uu, spec['rdu'], spec['wru'], spec['mcs'], conns,
           [[a, str(v)] for a, v in spec['consts']] + ([[[[], 'kc'], str(eff_k(spec, tuple(base) + tuple(pre), params))]] if spec.get('kconst') else [])]
   out = [[list(pre), comp]]
   for slot, subspec in kids(spec): out += hier(subspec, pre + (slot,), params, base)
